@@ -48,9 +48,7 @@ LOG = []            # keys of evaluated arguments, in order (cleared per observa
 _labels = {}
 
 
-def python_name(alias):
-    """kW -> k_w: the Python spelling whose camel-case alias is `alias`."""
-    return ''.join('_' + ch.lower() if ch.isupper() else ch for ch in alias)
+python_name = M.python_spelling
 
 
 def _label(v):
